@@ -258,3 +258,64 @@ def pinned_table():
             rows.append((int(r.group(1)), r.group(2), shape))
         out[name] = rows
     return out
+
+
+# ---- input buffer types and aliasing between the input buffer and the decoded objects ------------
+
+def decode_buffer_alias_problem(flavour_name, raw, rng):
+    """Decode the subroutine bytes `raw` from bytes / bytearray / memoryview inputs through both entry
+    points, then overwrite the (writable) input buffer: every decode must equal the reference decode
+    from `bytes`, before and after the overwrite.  None if fine, else a description."""
+    from netqasm.lang.parsing.binary import deserialize
+    ref = real_decode_sub(flavour_name, raw)
+    if ref is None:
+        return None
+    want = [instr_to_json(i) for i in ref.instructions]
+    for kind in ("bytearray", "memoryview-rw", "memoryview-ro", "bytes"):
+        buf = bytearray(raw) if kind in ("bytearray", "memoryview-rw") else None
+        arg = {"bytes": bytes(raw), "memoryview-ro": memoryview(bytes(raw)), "bytearray": buf,
+               "memoryview-rw": memoryview(buf) if buf is not None else None}[kind]
+        for entry in ("Deserializer", "deserialize"):
+            try:
+                if entry == "Deserializer":
+                    sub = Deserializer(FLAVOURS[flavour_name]()).deserialize_subroutine(arg)
+                else:
+                    sub = deserialize(arg, flavour=FLAVOURS[flavour_name]())
+                got = [instr_to_json(i) for i in sub.instructions]
+            except Exception as e:
+                return {"buffer": kind, "entry": entry, "what": "decoding raises for this input buffer type",
+                        "exception": type(e).__name__ + ": " + str(e)[:100]}
+            if got != want or sub.app_id != ref.app_id:
+                return {"buffer": kind, "entry": entry, "what": "decode differs from the decode of the same bytes",
+                        "reference": want[:4], "got": got[:4]}
+            if buf is not None:
+                how = rng.choice(["zeros", "ones", "random"])
+                for k in range(len(buf)):
+                    buf[k] = {"zeros": 0, "ones": 255, "random": rng.randrange(256)}[how]
+                try:
+                    after = [instr_to_json(i) for i in sub.instructions]
+                    app_after = sub.app_id
+                except Exception as e:
+                    after, app_after = {"unreadable": type(e).__name__}, None
+                if after != want or app_after != ref.app_id:
+                    return {"buffer": kind, "entry": entry, "overwritten_with": how,
+                            "what": "the decoded subroutine changed when the input buffer was overwritten",
+                            "before": want[:4], "after": after if isinstance(after, dict) else after[:4]}
+                buf[:] = bytes(raw)
+    # single commands
+    body = bytes(raw)[4:]
+    for k in range(0, min(len(body), 35), 7):
+        buf = bytearray(body[k:k + 7])
+        try:
+            a = Deserializer(FLAVOURS[flavour_name]()).deserialize_command(buf)
+            before = instr_to_json(a)
+            for j in range(7):
+                buf[j] = 255 - buf[j]
+            if instr_to_json(a) != before or before != want[k // 7]:
+                return {"buffer": "bytearray", "entry": "deserialize_command", "what": "decoded instruction is not "
+                        "the reference / changed when the input buffer was overwritten",
+                        "before": before, "after": instr_to_json(a), "reference": want[k // 7]}
+        except Exception as e:
+            return {"buffer": "bytearray", "entry": "deserialize_command", "what": "raises",
+                    "exception": type(e).__name__ + ": " + str(e)[:100]}
+    return None
